@@ -1,9 +1,10 @@
 import DepsDev.Proofs.C03L3Npm
 
 /-!
-# C03 layer L3 for npm, operator `le`: one comparator, prerelease candidates
+# C03 layer L3 for npm, operator `le`: one comparator, prerelease candidates (operands without tag)
 
-See `C03L3Npm` for the statement (`L3Npm`) and the proof script.
+See `C03L3Npm` for the statements and the proof script; `C03L3NpmLeP` has the tagged operands
+and the assembled `L3Npm .le`.
 -/
 namespace DepsDev.Proofs.C03
 
@@ -13,12 +14,6 @@ set_option linter.unusedSimpArgs false
 set_option linter.unusedVariables false
 
 theorem l3_full_le : L3Full .le := by l3_full
-theorem l3_pre_lt_le : L3PreO .le .lt := by l3_pre
-theorem l3_pre_eq_le : L3PreO .le .eq := by l3_pre
-theorem l3_pre_gt_le : L3PreO .le .gt := by l3_pre
 theorem l3_part_le : L3Part .le := by l3_part
-
-theorem l3_npm_le : L3Npm .le :=
-  l3_assemble _ l3_full_le (l3_pre_assemble _ l3_pre_lt_le l3_pre_eq_le l3_pre_gt_le) l3_part_le
 
 end DepsDev.Proofs.C03
